@@ -192,7 +192,14 @@ def check(pid, tier, seed, only, workers, verbose, write_evidence=True):
                             error=rec.get('error') or crec.get('error'),
                             failed=[c for c, s in crec['claims'] if s != 'ok'],
                             inputs=ex.jsonable({k: v for k, v in vals.items() if k != '#uf'}))
-                if h.finding and h.finding in listed and listed[h.finding].get('status') == 'finding':
+                is_listed = h.finding and h.finding in listed and listed[h.finding].get('status') == 'finding'
+                if is_listed and cname == 'no_unexpected_exception':
+                    # an exception counts as the listed finding only if its class is the one recorded for it
+                    errs = h.finding_errors or ()
+                    is_listed = (item['error'] or '').split(':')[0] in errs
+                elif is_listed and h.finding_claims is not None:
+                    is_listed = any(sub in cname for sub in h.finding_claims)
+                if is_listed:
                     known_hits.append(item)
                 else:
                     violations.append(item)
